@@ -175,7 +175,9 @@ func hasProp(c *Contract, prop string) bool {
 // evidence/replay writing when outDir is non-empty (self test).
 func runCheck(prop, tier string, seed int, update bool, overlay map[string][]byte, selftestDir string) int {
 	t0 := time.Now()
-	timeout := 30000
+	// per-obligation limit; obligations claimed discharge in well under a quarter of it
+	// on an idle machine (the margin is for a loaded one)
+	timeout := 60000
 	if tier == "thorough" {
 		timeout = 180000
 	}
